@@ -76,6 +76,7 @@ Proof.
   exists [(0,false);(0,false);(1,false);(1,false);(0,false);(0,false);(0,false);(0,false);(0,false);(0,false);(1,false);(1,false);(1,false);(1,false);(1,false);(1,false)].
   vm_compute. split; reflexivity.
 Qed.
+Print Assumptions C20_setdefault_return_self_refuted.
 
 (* ---- the memoised helpers in front of the constructors (Model/MemoLayer.v) ----
    Unit._multiply / _divide and Dimension._multiply / _divide are lru_cache'd functions whose every return is a call of the interning
